@@ -19,3 +19,14 @@ pub open spec fn items_are_leaves(v: DbView, i: u16) -> bool {
 pub open spec fn has_item(v: DbView, i: u16) -> bool {
     exists|k: AKey| #[trigger] v.contains_key(k) && k.index == i && k.kind == NodeMode::Item
 }
+/// only keys of index `i` whose kind satisfies `kinds` may differ between `a` and `b`
+pub open spec fn same_except(a: DbView, b: DbView, i: u16, tree: bool, item: bool, upd: bool, meta: bool) -> bool {
+    forall|k: AKey| !(k.index == i && ((tree && k.kind == NodeMode::Tree) || (item && k.kind == NodeMode::Item)
+                                        || (upd && k.kind == NodeMode::Updated) || (meta && k.kind == NodeMode::Metadata)))
+        ==> (#[trigger] a.contains_key(k) == b.contains_key(k) && (a.contains_key(k) ==> a[k] == b[k]))
+}
+/// `b` is `a` with some keys removed (nothing added, nothing rewritten)
+pub open spec fn only_removed(a: DbView, b: DbView) -> bool {
+    forall|k: AKey| #[trigger] b.contains_key(k) ==> a.contains_key(k) && b[k] == a[k]
+}
+pub open spec fn build_err(e: Error) -> bool { e is Heed || e is Io || e == Error::BuildCancelled || e == Error::DatabaseFull }
